@@ -84,6 +84,7 @@ type sched struct {
 	parked  chan *thread // thread -> scheduler: "I parked or finished"
 	abort   bool
 	closed  map[uintptr]bool
+	keep    []reflect.Value // channels known closed are kept alive: their address must not be reused within a run
 	stolen  map[uintptr][]reflect.Value
 	horizon int
 	steps   int
@@ -127,6 +128,7 @@ func (s *sched) self() *thread {
 }
 
 var checkGID = os.Getenv("VS_CHECK_GID") == "1"
+var liveTrace = os.Getenv("ND_KEEPALL") == "1"
 
 // Options for Run.
 type Options struct {
@@ -251,9 +253,11 @@ func (s *sched) probeClosed(ch reflect.Value) bool {
 	}
 	if !ok {
 		s.closed[k] = true
+		s.keep = append(s.keep, ch)
 		return true
 	}
 	s.stolen[k] = append(s.stolen[k], v)
+	s.keep = append(s.keep, ch)
 	return false
 }
 
@@ -519,6 +523,9 @@ func (s *sched) loop() Outcome {
 		t := en[pick]
 		if s.c.Keeping() {
 			s.trace = append(s.trace, t.name+": "+t.describe())
+			if liveTrace {
+				s.c.Note("%d %s: %s [enabled %d]", s.steps, t.name, t.describe(), len(en))
+			}
 		}
 		s.apply(t)
 		s.cur = t
@@ -688,6 +695,7 @@ func Close[T any](c chan T) {
 		k := reflect.ValueOf(c).Pointer()
 		if c != nil && !s.closed[k] {
 			s.closed[k] = true
+			s.keep = append(s.keep, reflect.ValueOf(c))
 		}
 	}
 	if aborting() {
